@@ -91,13 +91,25 @@ func VerifC18MapOrder() {
 	k := vh.Bound("keys", 3)
 	a := vSymbolicUpdates("a", k)
 	b := vSymbolicUpdates("b", k)
+	// symbolically two executions with independent solver-chosen map orders are compared; the
+	// native replay cannot choose Go's map order, so it repeats the call many times instead
+	runs := 2
+	if !vh.Symbolic() {
+		runs = 500
+	}
 	r1 := ccv.AccumulateChanges(a, b)
-	r2 := ccv.AccumulateChanges(a, b)
+	sameAcc := true
+	for i := 1; i < runs; i++ {
+		sameAcc = vh.And(sameAcc, vUpdatesEq(r1, ccv.AccumulateChanges(a, b), k))
+	}
 	vh.Reach("after-two-runs")
-	vh.Assert(vUpdatesEq(r1, r2, k), "C18.accumulate-independent-of-map-order")
+	vh.Assert(sameAcc, "C18.accumulate-independent-of-map-order")
 	cur := vSymbolicValList("cur", k)
 	next := vSymbolicValList("next", k)
 	d1 := DiffValidators(cur, next)
-	d2 := DiffValidators(cur, next)
-	vh.Assert(vUpdatesEq(d1, d2, k), "C18.diff-independent-of-map-order")
+	sameDiff := true
+	for i := 1; i < runs; i++ {
+		sameDiff = vh.And(sameDiff, vUpdatesEq(d1, DiffValidators(cur, next), k))
+	}
+	vh.Assert(sameDiff, "C18.diff-independent-of-map-order")
 }
